@@ -852,7 +852,7 @@ def run(tier, procs=None, only=None):
         bounds={"axes/coords": "orientation = arbitrary unit quaternion (symbolic)", "motion": ("4" if quick(tier) else "30") + " exact rational molecule orientations; applied rotation, position, shift symbolic",
                 "batch": "1 molecule per table (row bookkeeping is C12)", "local_coordinates": "shape (2,3,2), scale symbolic"},
         trusted_base=TRUSTED + ["SymRotation quaternion/rotvec contract", "Euler conversions as an uninterpreted inverse pair"],
-        outside=["Molecules.from_axes / axes_to_rotator incl. degenerate and mixed batches (sqrt/arctan2 chains; not encoded yet)", "as_euler gimbal-lock conventions (scipy's)",
+        outside=["axes_to_rotator on generic (non axis-aligned) frames: the sqrt/arctan2 chain is decided for axis-aligned and (anti-)parallel frames only (align-rotator, axes-degenerate) and by replay otherwise; from_axes itself is decided up to that call (from-axes-pairs: the missing axis is completed correctly for every orientation)", "as_euler gimbal-lock conventions (scipy's)",
                  "behaviour within 1e-6 of degenerate configurations in IEEE arithmetic"],
         mutants=MUTANTS if (not quick(tier) and not only) else None,
     )
